@@ -18,10 +18,14 @@ tests_summary=$(grep -E "^test result" $LOG | awk '{p+=$4; f+=$6} END {print p" 
 echo "== demo with patch" >> $LOG
 demo_with=NA; demo_without=NA
 if [ -f $OUT/demo/run.sh ]; then
-  sh $OUT/demo/run.sh $WT >> $LOG 2>&1; demo_with=$?
+  # Some demos take the worktree, others the built binary.
+  if grep -q "target/debug/circomspect" $OUT/demo/run.sh; then ARG=$WT/target/debug/circomspect; BUILD=1; else ARG=$WT; BUILD=0; fi
+  [ $BUILD = 1 ] && CARGO_NET_OFFLINE=true CARGO_TARGET_DIR=$WT/target cargo build --offline -j 8 >> $LOG 2>&1
+  bash $OUT/demo/run.sh $ARG >> $LOG 2>&1; demo_with=$?
   git checkout -q -- . ; git clean -fdq -e target
+  [ $BUILD = 1 ] && CARGO_NET_OFFLINE=true CARGO_TARGET_DIR=$WT/target cargo build --offline -j 8 >> $LOG 2>&1
   echo "== demo without patch" >> $LOG
-  sh $OUT/demo/run.sh $WT >> $LOG 2>&1; demo_without=$?
+  bash $OUT/demo/run.sh $ARG >> $LOG 2>&1; demo_without=$?
 fi
 git checkout -q -- . ; git clean -fdq -e target
 # Now against /repo with the real checks.
@@ -29,7 +33,7 @@ cd /verif
 git -C /repo apply $OUT/patch.diff || { echo "patch does not apply to /repo"; exit 2; }
 results=""
 for id in $PROP "$@"; do
-  out=$(./check $id quick 2>&1); rc=$?
+  out=$(timeout 900 ./check $id quick 2>&1); rc=$?
   sigs=$(echo "$out" | grep -E "^  signature:" | sed 's/  signature: //' | tr '\n' '|')
   results="$results{\"check\":\"$id\",\"exit\":$rc,\"signatures\":\"$sigs\"},"
   echo "== check $id rc=$rc" >> $LOG; echo "$out" | head -40 >> $LOG
